@@ -1,6 +1,7 @@
 package c09
 
 import (
+	"bytes"
 	"crypto/sha256"
 	"encoding/json"
 	"fmt"
@@ -13,6 +14,7 @@ import (
 	"sync"
 	"sync/atomic"
 	"testing"
+	"time"
 
 	"github.com/deadsy/sdfx/render"
 	"github.com/deadsy/sdfx/render/dc"
@@ -26,6 +28,7 @@ import (
 	"verif/internal/fmtread"
 	"verif/internal/g"
 	"verif/internal/lat"
+	"verif/internal/pin"
 	"verif/internal/shape"
 )
 
@@ -287,20 +290,31 @@ func TestDeterministicAcrossConfigurations(t *testing.T) {
 				y := pitch * float64(i)
 				parts = append(parts, sdf.Transform2D(part, sdf.Translate2d(v2.Vec{X: 3, Y: y})), sdf.Transform2D(part, sdf.Translate2d(v2.Vec{X: 3 + pitch, Y: y + pitch/2})))
 			}
-			var model sdf.SDF3
 			how := rapid.SampledFrom([]string{"extrude", "extrude", "revolve", "plate"}).Draw(t, "how")
-			switch how {
-			case "extrude":
-				model = sdf.Extrude3D(sdf.Union2D(parts...), 0.5)
-			case "revolve":
-				model, _ = sdf.Revolve3D(sdf.Union2D(parts...))
-			default:
+			// the model is built anew for every render (mkModel): a cached profile starts cold each time
+			cached := rapid.Bool().Draw(t, "cached-profile")
+			var plate sdf.SDF3
+			if how == "plate" {
 				// a plate that is wide in y and z and thin in x: few lattice layers, each of more than ten
 				// thousand samples (the uniform renderer's batch queue runs full within one layer)
 				side := g.F(20, 40).Draw(t, "plate-side")
 				pl, _ := sdf.Box3D(v3.Vec{X: side * g.F(0.04, 0.1).Draw(t, "plate-thickness"), Y: side, Z: side * g.F(0.8, 1).Draw(t, "plate-zy")}, 0.3)
 				hole, _ := sdf.Cylinder3D(side, side/7, 0)
-				model = sdf.Difference3D(pl, sdf.Transform3D(hole, sdf.RotateY(math.Pi/2)))
+				plate = sdf.Difference3D(pl, sdf.Transform3D(hole, sdf.RotateY(math.Pi/2)))
+			}
+			mkModel := func() sdf.SDF3 {
+				if how == "plate" {
+					return plate
+				}
+				var profile sdf.SDF2 = sdf.Union2D(append([]sdf.SDF2(nil), parts...)...)
+				if cached {
+					profile = sdf.Cache2D(profile) // an evaluation cache in front of the profile
+				}
+				if how == "extrude" {
+					return sdf.Extrude3D(profile, 0.5)
+				}
+				m, _ := sdf.Revolve3D(profile)
+				return m
 			}
 			n = &shape.Node{Op: "sphere", P: []float64{float64(np), pitch}} // stands for the description only
 			rname = rapid.SampledFrom([]string{"mcu", "mcu", "mco"}).Draw(t, "many-renderer")
@@ -320,9 +334,9 @@ func TestDeterministicAcrossConfigurations(t *testing.T) {
 					cells = rapid.IntRange(100, ev.Pick(200, 300)).Draw(t, "deep-octree-cells-revolve")
 				}
 			}
-			manyDesc = fmt.Sprintf("%s of a 2D union of %d parts (round=%v, pitch %v)", how, 2*np, round, pitch)
+			manyDesc = fmt.Sprintf("%s of a 2D union of %d parts (round=%v, pitch %v, cached profile=%v)", how, 2*np, round, pitch, cached)
 			run = func(mode int) string {
-				return out3(t, &lat.Perturb3{S: model, Mode: mode}, rname, cells, sink, dir)
+				return out3(t, &lat.Perturb3{S: mkModel(), Mode: mode}, rname, cells, sink, dir)
 			}
 		} else if dim == 3 {
 			n = shape.Gen3(t, shape.Opts{S: S, Depth: rapid.IntRange(0, 2).Draw(t, "depth"), Grammar: shape.Lipschitz, NoPoly: true, SolidUnion2: true})
@@ -541,6 +555,8 @@ func quietly(f func()) {
 	f()
 }
 
+var pinNext atomic.Int64
+
 func TestFreshProcesses(t *testing.T) {
 	rec := ev.Get()
 	bin := filepath.Join(os.Getenv("VERIF_BIN"), "detchild"+os.Getenv("VERIF_BIN_SUFFIX"))
@@ -579,13 +595,40 @@ func TestFreshProcesses(t *testing.T) {
 		cpath := filepath.Join(dir, "case.json")
 		os.WriteFile(cpath, cj, 0o644)
 		envs := [][]string{{"GOMAXPROCS=1", "GOGC=100"}, {"GOMAXPROCS=" + fmt.Sprint(runtime.NumCPU()), "GOGC=10"}, {"GOMAXPROCS=3", "GOGC=off"}}
+		// a host with fewer processors (single-core VM, one-CPU cpuset): the child is confined to that many
+		// CPUs, its runtime.NumCPU() - the size of the uniform renderer's worker pool - is the number drawn
+		cpus := []int{0, 0, 0}
+		if k := rapid.SampledFrom([]int{0, 1, 2, 3}).Draw(t, "host-cpus"); k > 0 && k < runtime.NumCPU() {
+			envs = append(envs, []string{"GOGC=100", fmt.Sprintf("VERIF_NOTE=confined-to-%d-cpus", k)})
+			cpus = append(cpus, k)
+			rec.Label(fmt.Sprintf("fresh:also-on-a-host-with-%d-cpus", k))
+		}
 		var first string
 		for i, e := range envs {
 			od := filepath.Join(dir, fmt.Sprintf("run%d", i))
 			os.MkdirAll(od, 0o755)
 			cmd := exec.Command(bin, cpath, od)
 			cmd.Env = append(os.Environ(), e...)
-			out, err := cmd.CombinedOutput()
+			var ob bytes.Buffer
+			cmd.Stdout, cmd.Stderr = &ob, &ob
+			var err error
+			if cpus[i] > 0 {
+				_, err = pin.Start(cmd, int(pinNext.Add(1)), cpus[i])
+			} else {
+				err = cmd.Start()
+			}
+			if err == nil {
+				done := make(chan error, 1)
+				go func() { done <- cmd.Wait() }()
+				select {
+				case err = <-done:
+				case <-time.After(10 * time.Minute):
+					cmd.Process.Kill()
+					<-done
+					err = fmt.Errorf("no result after 10 minutes (the renders take well under a second)")
+				}
+			}
+			out := ob.Bytes()
 			if err != nil {
 				t.Fatalf("detchild failed under %v: %v\n%s", e, err, out)
 			}
